@@ -137,22 +137,22 @@ def gen_strategy(rng, valid=False):
 def strategy_env(a):
     t = a["type"]
     if t == "api_key":
-        return "apiKey", {"str": {"recv.In": hx(a["in"]), "recv.Name": hx(a["name"]), "recv.Value": hx(a["value"])}}
+        return "apiKey", {"str": {"in": hx(a["in"]), "name": hx(a["name"]), "value": hx(a["value"])}}
     if t == "basic_auth":
-        return "basicAuth", {"str": {"recv.User": hx(a["user"]), "recv.Password": hx(a["password"])}}
+        return "basicAuth", {"str": {"user": hx(a["user"]), "password": hx(a["password"])}}
     if t == "http_message_signatures":
-        env = {"str": {"recv.Label": hx(a["label"]), "recv.Signer.Name": hx(a["name"]), "recv.Signer.KeyID": hx(a["key_id"]),
-                       "u64 *recv.TTL": hx(le64(a["ttl"])) if "ttl" in a else ""},
-               "lst": {"recv.Components": [hx(c) for c in a["components"]]},
-               "has": {"recv.TTL != nil": "ttl" in a}, "num": {"*recv.TTL": a.get("ttl", 0)}}
+        env = {"str": {"label": hx(a["label"]), "signerName": hx(a["name"]), "keyID": hx(a["key_id"]),
+                       "ttlBytes": hx(le64(a["ttl"])) if "ttl" in a else ""},
+               "lst": {"components": [hx(c) for c in a["components"]]},
+               "has": {}, "num": {}}
         return "httpMessageSignatures", env
     return "clientCredentialsHash", cc_env(a)
 
 
 def cc_env(a):
-    return {"str": {"recv.ClientID": hx(a["client_id"]), "recv.ClientSecret": hx(a["client_secret"]),
-                    "recv.TokenURL": hx(a["token_url"])},
-            "lst": {"recv.Scopes": [hx(s) for s in a["scopes"]]}}
+    return {"str": {"clientID": hx(a["client_id"]), "clientSecret": hx(a["client_secret"]),
+                    "tokenURL": hx(a["token_url"])},
+            "lst": {"scopes": [hx(s) for s in a["scopes"]]}}
 
 
 def gen_endpoint(rng, valid=False, path="/e", tpl_vals=None):
@@ -183,12 +183,12 @@ def endpoint_env(ep, srv=SRV, defaults=None, method_default=None):
     for k, v in (defaults or {}).items():
         hdrs.setdefault(k, v)
     method = ep.get("method", "") or (method_default or "")
-    env = {"str": {"recv.URL": hx(ep["url"].replace(SRV, srv)), "recv.Method": hx(method)},
-           "map": {"recv.Headers": [[hx(k), hx(v)] for k, v in hdrs.items()]},
-           "has": {"recv.AuthStrategy != nil": "auth" in ep}}
+    env = {"str": {"url": hx(ep["url"].replace(SRV, srv)), "method": hx(method)},
+           "map": {"headers": [[hx(k), hx(v)] for k, v in hdrs.items()]},
+           "has": {"authStrategy?": "auth" in ep}}
     if "auth" in ep:
         fn, senv = strategy_env(ep["auth"])
-        env["sub"] = {"recv.AuthStrategy.Hash()": {"fn": fn, "env": senv}}
+        env["sub"] = {"authStrategy": {"fn": fn, "env": senv}}
     return env
 
 
@@ -273,21 +273,21 @@ def plain_env(fn, cfg, obs=None, srv=SRV):
         return cc_env(cfg)
     if fn == "jwtSigner":
         o = obs or {}
-        return {"str": {"recv.jwk.KeyID": o.get("jwk.KeyID", [""])[0], "recv.jwk.Algorithm": o.get("jwk.Algorithm", [""])[0],
-                        "recv.iss": hx(cfg["iss"] or "heimdall"),
-                        "recv.jwk.Thumbprint(crypto.SHA256)": o.get("jwk.Thumbprint(crypto.SHA256)", [""])[0]}}
+        return {"str": {"keyID": o.get("jwk.KeyID", [""])[0], "algorithm": o.get("jwk.Algorithm", [""])[0],
+                        "issuer": hx(cfg["iss"] or "heimdall"),
+                        "thumbprint": o.get("jwk.Thumbprint(crypto.SHA256)", [""])[0]}}
     if fn == "subject":
-        return {"str": {"json.Marshal(recv)": (obs or {}).get("json.Marshal(s)", [""])[0]}}
+        return {"str": {"json": (obs or {}).get("json.Marshal(s)", [""])[0]}}
     if fn == "template":
-        return {"str": {"arg0": hx(cfg["val"])}}
+        return {"str": {"text": hx(cfg["val"])}}
     if fn == "httpCache":
         auth = cfg.get("authorization", "").strip()
         hdrs = dict(cfg.get("headers") or {})
         if "authorization" in cfg:
             hdrs["Authorization"] = cfg["authorization"]
-        return {"str": {"arg0.URL.String()": hx(cfg["url"]), "arg0.Method": hx(cfg["method"]),
-                        'strings.TrimSpace(arg0.Header.Get("Authorization"))': hx(auth)},
-                "map": {"headerFields(arg0.Header)": [[hx(k), hx(v)] for k, v in hdrs.items()]}}
+        return {"str": {"url": hx(cfg["url"]), "method": hx(cfg["method"]),
+                        "authorization": hx(auth)},
+                "map": {"headers": [[hx(k), hx(v)] for k, v in hdrs.items()]}}
     raise ValueError(fn)
 
 
@@ -626,7 +626,7 @@ def dur_ns(s, default=0):
 
 
 def sub_env(obs):
-    return {"fn": "subject", "env": {"str": {"json.Marshal(recv)": obs}}}
+    return {"fn": "subject", "env": {"str": {"json": obs}}}
 
 
 def mech_env(m, oi, step, srv, obs):
@@ -635,12 +635,12 @@ def mech_env(m, oi, step, srv, obs):
     signer key)"""
     kind = m["kind"]
     e = effective(m, oi)
-    hdr = "arg0.Request().Header(_) for recv.fwdHeaders"
-    ck = "arg0.Request().Cookie(_) for recv.fwdCookies"
+    hdr = "fwdHeaderValues"
+    ck = "fwdCookieValues"
     if kind == "genericAuthenticator":
         token = header_of(step, "X-Token").strip()
-        return {"sub": {"recv.e.Hash()": {"fn": "endpoint", "env": endpoint_env(m["ep"], srv)}},
-                "str": {"recv.id": hx(m["id"]), "arg1": hx(token)},
+        return {"sub": {"endpoint": {"fn": "endpoint", "env": endpoint_env(m["ep"], srv)}},
+                "str": {"id": hx(m["id"]), "credential": hx(token)},
                 "lst": {hdr: [hx(header_of(step, n)) for n in m["fwd_headers"]],
                         ck: [hx(step["cookies"].get(n, "")) for n in m["fwd_cookies"]]}}
     if kind in ("introspection", "jwtAuthenticator"):
@@ -654,37 +654,37 @@ def mech_env(m, oi, step, srv, obs):
         url = m["ep"]["url"].replace(SRV, srv)
         if kind == "jwtAuthenticator":
             url = url.replace("{{.TokenIssuer}}", parts[3] if len(parts) > 3 else "issuer-1")
-        return {"sub": {"arg0.Hash()": {"fn": "endpoint", "env": endpoint_env(m["ep"], srv, defaults, md)}},
-                "str": {"recv.id": hx(m["id"]), "arg1": hx(url), "arg2": hx(ref)}}
+        return {"sub": {"endpoint": {"fn": "endpoint", "env": endpoint_env(m["ep"], srv, defaults, md)}},
+                "str": {"id": hx(m["id"]), "url": hx(url), ("token" if kind == "introspection" else "keyID"): hx(ref)}}
     if kind in ("remoteAuthorizer", "genericContextualizer"):
         vals = {k: tpl_render(v, step) for k, v in (e.get("values") or {}).items()}
         payload = tpl_render(e["payload"], step, vals)
         ra = kind == "remoteAuthorizer"
-        env = {"sub": {"recv.e.Hash()": {"fn": "endpoint", "env": endpoint_env(m["ep"], srv)},
-                       ("arg0.Hash()" if ra else "arg1.Hash()"): sub_env(obs["json.Marshal(s)"])},
-               "str": {"recv.id": hx(m["id"]), ("arg2" if ra else "arg3"): hx(payload)},
-               "num": {"recv.ttl": dur_ns(e["ttl"])},
-               "map": {("arg1" if ra else "arg2"): [[hx(k), hx(v)] for k, v in vals.items()]}, "lst": {}}
+        env = {"sub": {"endpoint": {"fn": "endpoint", "env": endpoint_env(m["ep"], srv)},
+                       "subject": sub_env(obs["json.Marshal(s)"])},
+               "str": {"id": hx(m["id"]), "payload": hx(payload)},
+               "num": {"ttl": dur_ns(e["ttl"])},
+               "map": {"values": [[hx(k), hx(v)] for k, v in vals.items()]}, "lst": {}}
         if ra:
-            env["lst"]["recv.headersForUpstream"] = [hx(x) for x in m["fwd_resp"]]
+            env["lst"]["headersForUpstream"] = [hx(x) for x in m["fwd_resp"]]
         else:
             fh, fc = e["fwd_headers"], m["fwd_cookies"]
-            env["lst"]["recv.fwdHeaders"] = [hx(x) for x in fh]
-            env["lst"]["recv.fwdCookies"] = [hx(x) for x in fc]
+            env["lst"]["fwdHeaders"] = [hx(x) for x in fh]
+            env["lst"]["fwdCookies"] = [hx(x) for x in fc]
             env["lst"][hdr] = [hx(header_of(step, n)) for n in fh]
             env["lst"][ck] = [hx(step["cookies"].get(n, "")) for n in fc]
         return env
     if kind == "jwtFinalizer":
-        lbl = "recv.claims.Hash() if recv.claims != nil"
-        env = {"sub": {"recv.signer.Hash()": {"fn": "jwtSigner", "env": {"str": {
-            "recv.jwk.KeyID": obs["jwk.KeyID"], "recv.jwk.Algorithm": obs["jwk.Algorithm"],
-            "recv.iss": hx(m["iss"] or "heimdall"),
-            "recv.jwk.Thumbprint(crypto.SHA256)": obs.get("jwk.Thumbprint(crypto.SHA256)", "")}}},
-            "arg1.Hash()": sub_env(obs["json.Marshal(s)"])},
-            "str": {"json.Marshal(arg0.Outputs())": obs["json.Marshal(ctx.Outputs())"]},
-            "num": {"recv.ttl": dur_ns(e["ttl"], 300 * 10 ** 9)}, "has": {lbl: e["claims"] is not None}}
+        lbl = "claims"
+        env = {"sub": {"signer": {"fn": "jwtSigner", "env": {"str": {
+            "keyID": obs["jwk.KeyID"], "algorithm": obs["jwk.Algorithm"],
+            "issuer": hx(m["iss"] or "heimdall"),
+            "thumbprint": obs.get("jwk.Thumbprint(crypto.SHA256)", "")}}},
+            "subject": sub_env(obs["json.Marshal(s)"])},
+            "str": {"outputs": obs["json.Marshal(ctx.Outputs())"]},
+            "num": {"ttl": dur_ns(e["ttl"], 300 * 10 ** 9)}, "has": {lbl + "?": e["claims"] is not None}}
         if e["claims"] is not None:
-            env["sub"][lbl] = {"fn": "template", "env": {"str": {"arg0": hx(tpl_go(e["claims"]))}}}
+            env["sub"][lbl] = {"fn": "template", "env": {"str": {"text": hx(tpl_go(e["claims"]))}}}
         else:
             env["str"][lbl] = ""
         return env
@@ -834,3 +834,67 @@ def key_case(m, oi, step, reps):
             "cfg": {"id": m["id"], "conf": mech_conf(m),
                     "override": override_conf(m, m["overrides"][oi - 1]) if oi else None,
                     "step": harness_steps([step])[0]}}
+
+
+# -----------------------------------------------------------------------------------------------------------------
+# probe configurations for binding the extracted writes to the inputs (tools/c11_bind.py): every input of a key function
+# has a value of its own, and the two probes of a function differ in every input
+
+def _pstep(n):
+    return {"headers": {"X-Token": "tokP%d~s1" % n, "X-A": "ha%d" % n, "X-B": "hb%d%d" % (n, n)},
+            "cookies": {"sid": "ca%d" % n, "ck": "cb%d%d" % (n, n)},
+            "subject": {"id": "subj%d" % n, "attrs": {"k": "v%d" % n}}, "outputs": {"o1": "out%d" % n}, "override": 0}
+
+
+def probe_cases():
+    """[(harness key case, meta)] — two per key function, in dependency order (nested digests first)"""
+    out = []
+
+    def plain(fn, cfg):
+        out.append(({"fam": "cachekey", "op": "key", "fn": fn, "reps": 2, "cfg": cfg}, {"fn": fn, "cfg": cfg, "pair": None}))
+
+    def mech(m, step):
+        out.append((key_case(m, 0, step, 2), {"fn": m["kind"], "mech": m, "oi": 0, "step": step, "pair": None}))
+    plain("apiKey", {"type": "api_key", "in": "header", "name": "nm1", "value": "val01"})
+    plain("apiKey", {"type": "api_key", "in": "cookie", "name": "nm22", "value": "v2"})
+    plain("basicAuth", {"type": "basic_auth", "user": "usr1", "password": "passw1"})
+    plain("basicAuth", {"type": "basic_auth", "user": "us2", "password": "p2"})
+    plain("httpMessageSignatures", {"type": "http_message_signatures", "label": "lbl1", "name": "sn1", "key_id": "kid001",
+                                    "components": ["@method", "@path"], "ttl": 7})
+    plain("httpMessageSignatures", {"type": "http_message_signatures", "label": "l2", "name": "sname2", "key_id": "k2",
+                                    "components": ["@status"]})
+    for fn in ("clientCredentialsHash", "clientCredentialsKey"):
+        plain(fn, {"token_url": "http://t/one", "client_id": "cid1", "client_secret": "secret01", "scopes": ["sa", "sbb"]})
+        plain(fn, {"token_url": "http://t/2", "client_id": "c2", "client_secret": "s2", "scopes": ["x"]})
+    plain("jwtSigner", {"kid": "kid1", "iss": "issuer1"})
+    plain("jwtSigner", {"kid": "kid22", "iss": "is2"})
+    plain("subject", {"id": "s1", "attrs": {"a": "b"}})
+    plain("subject", {"id": "s22", "attrs": {}})
+    plain("template", {"val": "tpl one"})
+    plain("template", {"val": "t2"})
+    plain("endpoint", {"url": "http://h/one", "method": "PATCH", "headers": {"X-One": "v1", "X-Two": "v22"},
+                       "auth": {"type": "basic_auth", "user": "usr1", "password": "pw1"}})
+    plain("endpoint", {"url": "http://h/2", "method": "PUT", "headers": {"X-Three": "v3"}})
+    plain("httpCache", {"method": "GET", "url": "http://h/x1", "authorization": "Bearer t1"})
+    plain("httpCache", {"method": "HEAD", "url": "http://h/xx2", "authorization": "Basic t22"})
+    for n in (1, 2):
+        ep = {"url": SRV + "/p%d" % n, "method": "POST", "headers": {"X-E%d" % n: "e%d" % n}}
+        mech({"kind": "genericAuthenticator", "id": "ga%d" % n, "ep": dict(ep), "fwd_headers": ["X-A", "X-B"][:3 - n],
+              "fwd_cookies": ["sid", "ck"][:n], "payload": None, "ttl": "10m", "overrides": []}, _pstep(n))
+        mech({"kind": "introspection", "id": "in%d" % n, "ep": dict(ep, url=SRV + "/intro/p%d" % n), "ttl": "10m",
+              "overrides": []}, _pstep(n))
+        st = _pstep(n)
+        st["headers"]["X-Token"] = "JWT:k%d:u%d:issuer-%d" % (n, n, n)
+        mech({"kind": "jwtAuthenticator", "id": "jw%d" % n, "ep": dict(ep, url=SRV + "/jwks/p%d" % n, method="GET"),
+              "ttl": "10m", "overrides": []}, st)
+        mech({"kind": "remoteAuthorizer", "id": "ra%d" % n, "ep": dict(ep, url=SRV + "/authz/p%d" % n),
+              "values": {"va%d" % n: [("lit", "x%d" % n)], "vb": [("lit", "y%d%d" % (n, n))]},
+              "payload": [("lit", "payload-%d" % n)], "ttl": ["10m", "5m"][n - 1], "fwd_resp": ["X-R1", "X-R2"][:n],
+              "expr": None, "overrides": []}, _pstep(n))
+        mech({"kind": "genericContextualizer", "id": "gc%d" % n, "ep": dict(ep, url=SRV + "/ctx/p%d" % n),
+              "values": {"va%d" % n: [("lit", "x%d" % n)]}, "payload": [("lit", "payload-%d" % n)],
+              "ttl": ["10m", "5m"][n - 1], "fwd_headers": ["X-A", "X-B"][:n], "fwd_cookies": ["sid", "ck"][:3 - n],
+              "overrides": []}, _pstep(n))
+        mech({"kind": "jwtFinalizer", "id": "jf%d" % n, "iss": "iss%d" % n, "ttl": ["5m", "10m"][n - 1],
+              "claims": [("lit", '{"c":"%d"}' % n)] if n == 1 else None, "overrides": []}, _pstep(n))
+    return out
